@@ -22,6 +22,7 @@ RULE = ("seeded histories of 1-6 runs of sample_combos / sow_samples+grow+reap w
         "and logging generators), runner constants, batch sizes, shuffle, engines pickle/csv, fresh Sampler objects "
         "between runs, older still-open Samplers running again, sample crops reaped by a Crop re-created from disk, choices that are nanosecond dates, runs whose save fails once, tables under names that ask for compression; every post-run state is one judged observation; runs of 1030-1120 samples through a thread pool; samplers made by @label(sampler=...), tables named by a pathlib.Path, tables whose time stamp does not advance between runs; distinct by history prefix; non-trivial from "
         "the second run on")
+RULE += '; after a third of the runs the caller edits the returned frame in place (a column overwritten, a column added) and the accumulated table is read again; the last run of one history in eight asks for n = 0 samples (known finding KF-C15-zero-samples-run-once)'
 ASSUMPTIONS = [
     "'changes no earlier row' is judged as: the multiset of rows before the run is contained in the table after it, and the first rows are positionally the same",
     "csv tables are compared after pandas' own parsing (column dtypes may differ between memory and a csv reload; values are compared canonically)",
